@@ -249,7 +249,8 @@ Scan(toks, k, j, level) ==       \* j-th scan character of token k
                        [] OTHER -> Scan(toks, k, j + 1, level)
 Detected(following) == Scan(following, 1, 1, 0)
 
-HashLeafKey(id) == id     \* floats are hashed by bit pattern ("f0" and "fneg0" differ); numbers by value (one id per number)
+\* numbers are hashed by value (one id per number), floats by bit pattern except that both zeros (and NaN) hash as +0.0
+HashLeafKey(id) == IF id \in {"f0", "fneg0"} THEN "F0" ELSE id
 
 \* ---- rendering and hash events in one recursion ----
 \* RE(x, st, rest) = [toks |-> the tokens of x in style st,
